@@ -431,6 +431,11 @@ func upstreamProcsForProc(proc WorkflowProcess) map[string]WorkflowProcess {
 	}
 	for _, pip := range proc.InParamPorts() {
 		for _, rpp := range pip.RemotePorts {
+			if rpp.Process() == proc {
+				// The feeder ports created by FromStr/FromInt/FromFloat belong to
+				// the process itself, and are not upstream of it
+				continue
+			}
 			procs[rpp.Process().Name()] = rpp.Process()
 			mergeWFMaps(procs, upstreamProcsForProc(rpp.Process()))
 		}
